@@ -172,7 +172,7 @@ pub fn decode_io_case(data: &[u8]) -> IoCase {
     };
     while !u.is_empty() && ops.len() < 64 {
         let sz = u.int_in_range(0u32..=(2 * n + 2)).unwrap_or(0);
-        ops.push(match u.int_in_range(0u8..=14).unwrap_or(0) {
+        ops.push(match u.int_in_range(0u8..=19).unwrap_or(0) {
             0 | 1 | 2 | 3 => IoOp::Write(sz),
             4 => IoOp::WriteAll(sz),
             5 => IoOp::ExtendRef(sz),
@@ -182,6 +182,10 @@ pub fn decode_io_case(data: &[u8]) -> IoCase {
             11 => IoOp::Consume(amt(&mut u)),
             12 => IoOp::FillBufConsume(amt(&mut u)),
             13 => IoOp::ReadUntil(amt(&mut u)),
+            15 | 16 => IoOp::ReadVectored(sz, u.int_in_range(0u32..=(n + 2)).unwrap_or(0), u.int_in_range(0u32..=(n + 2)).unwrap_or(0)),
+            17 => IoOp::WriteVectored(sz, u.int_in_range(0u32..=(n + 2)).unwrap_or(0), u.int_in_range(0u32..=(n + 2)).unwrap_or(0)),
+            18 => IoOp::Bytes(sz),
+            19 => IoOp::TakeToEnd(sz),
             _ => IoOp::ReadToEnd,
         });
     }
